@@ -1,7 +1,7 @@
 """C11 — bridging to chain-custom types preserves the response and the call."""
 import json
 
-from .. import common as c, corpus, translate
+from .. import common as c, corpus, translate, custbins
 
 THEOREMS = [("Sylvia.Thm.C11", "C11." + t) for t in ["into_response_ok", "into_response_err_iff", "intoMsgs_ok", "intoMsgs_err"]] + \
            [("Sylvia.Thm.Obl.Convertible", "Obl.convertible_complete"), ("Sylvia.Thm.Obl.Tables", "Obl.extraction_complete")]
@@ -56,6 +56,7 @@ def run(ctx):
             ctx.violation(cls, "response with message kinds %s: observed %s, required %s" % (kinds, r[:160], want), {"op": o, "observed": r, "required": want})
     ctx.add_stream("L3-into-response", len(ops), len(set(ops)), samples=ops[1:3], model_disagreements=nd, oracle_failures=bad, histogram=hist)
     ctx.cov["traces_validated_against_impl"] += len(ops)
+    custbins.stream(ctx)
     ctx.cov["rule"] = "generated Response<Empty>: 0..8 sub-messages over 12 message shapes (9 CosmosMsg variants), ids/gas limits/triggers/payloads, attributes, events, data; with and without custom messages"
     if ctx.violations:
         for o in ctx.obligation_failures:
